@@ -17,6 +17,7 @@
 package compose
 
 import (
+	"fmt"
 	"reflect"
 
 	"github.com/cloudwego/eino/internal/generic"
@@ -106,7 +107,11 @@ func unpackStreamReader[T any](isr streamReader) (*schema.StreamReader[T], bool)
 	typ := generic.TypeOf[T]()
 	if typ.Kind() == reflect.Interface {
 		return schema.StreamReaderWithConvert(isr.toAnyStreamReader(), func(t any) (T, error) {
-			return t.(T), nil
+			v, ok := t.(T)
+			if !ok && t != nil { // a nil interface item is the zero T
+				return v, fmt.Errorf("runtime type check fail, expected type: %v, actual type: %T", typ, t)
+			}
+			return v, nil
 		}), true
 	}
 
